@@ -111,6 +111,8 @@ class Scenario:
         W = self.W
         if action == "blackout":
             W.blackout = bool(arg)
+        elif action == "neterr":
+            W.blackout = W.send_error = bool(arg)
         elif action == "rferr":
             self.sim._do_rferr = bool(arg)
         elif action == "lossy":
@@ -120,7 +122,7 @@ class Scenario:
             W.s2c_cycle = ["drop" if x else "deliver" for x in pat[::-1]] or None
             W.c2s_tape, W.s2c_tape = [], []
         elif action == "healthy":
-            W.blackout = False
+            W.blackout = W.send_error = False
             self.sim._do_rferr = False
             W.c2s_cycle = W.s2c_cycle = None
             W.c2s_tape, W.s2c_tape = [], []
@@ -150,7 +152,7 @@ def run_scenario(case, *, recover_bound, mirror_wait=0.0, detect_bound=None, on_
     sc = Scenario(jitter=jitter, suspend=case.get("suspend"))
     W, sim, peer = sc.W, sc.sim, sc.peer
     Man = make_man_class()
-    rec = {"sc": sc, "overlap": False, "problems": [], "ok_at": None, "mirror": None, "detect_fail": None}
+    rec = {"sc": sc, "overlap": False, "problems": [], "ok_at": None, "mirror": None, "detect_fail": None, "escapes": []}
 
     async def main(W):
         async with Man(W, spa_identifier=SPA_ID_STR, spa_address=peer.addr[0], spa_name="Spa") as man:
@@ -164,9 +166,24 @@ def run_scenario(case, *, recover_bound, mirror_wait=0.0, detect_bound=None, on_
             blackout_since = None
             busy = (GeckoSpaState.LOCATING_SPAS, GeckoSpaState.CONNECTING, GeckoSpaState.LOCATED_SPAS)
 
+            nf_since = None
+
             async def tick():
-                nonlocal blackout_since
+                nonlocal blackout_since, nf_since
                 sc.sample()
+                # Known dead end (known_findings.json, C09): ERROR_SPA_NOT_FOUND is never left.  So that the search goes on behind it,
+                # the harness does what a user would: once the state has persisted for 25 s on a fault-free network (two discovery
+                # runs would have found the spa) it presses "reconnect"; every such escape is reported as that known finding.
+                faultless = not (W.blackout or sim._do_rferr or W.c2s_cycle or W.s2c_cycle)
+                if man.spa_state == GeckoSpaState.ERROR_SPA_NOT_FOUND and faultless:
+                    if nf_since is None:
+                        nf_since = W.clock.t
+                    elif W.clock.t - nf_since >= 25.0:
+                        rec["escapes"].append(W.clock.t - t0)
+                        nf_since = None
+                        await man.async_reset()
+                else:
+                    nf_since = None
                 if on_sample is not None:
                     on_sample(sc, man)
                 now = W.clock.t
@@ -190,7 +207,7 @@ def run_scenario(case, *, recover_bound, mirror_wait=0.0, detect_bound=None, on_
                         blackout_since = None
 
             for kind, dur, arg in case["phases"]:
-                if kind not in ("healthy", "blackout", "rferr", "lossy"):
+                if kind not in ("healthy", "blackout", "rferr", "lossy", "neterr"):
                     raise InvalidCase(kind)
                 if kind != "healthy" and man.spa_state in busy + (GeckoSpaState.IDLE,):
                     rec["overlap"] = True
